@@ -430,6 +430,53 @@ func overlapVariants(rng *rand.Rand, w *World) [][]string {
 	return out
 }
 
+// recursiveFirstVariants (no draws): a directory x of the selection is named through the
+// recursive pattern x/... and stands FIRST, followed by the other patterns, among them one
+// whose spelling merely extends x as a string (./a/... then ./api/conv). Selects the same
+// packages as the canonical list whenever nothing else lives below x.
+func recursiveFirstVariants(w *World) [][]string {
+	var out [][]string
+	selected := map[string]bool{}
+	for _, p := range w.Patterns {
+		selected[p] = true
+	}
+	for _, x := range w.Patterns {
+		if !strings.HasPrefix(x, "./") || strings.Contains(x, "...") {
+			continue
+		}
+		sibling := false
+		for _, y := range w.Patterns {
+			if y != x && strings.HasPrefix(y, x) && !strings.HasPrefix(y, x+"/") {
+				sibling = true
+			}
+		}
+		if !sibling {
+			continue
+		}
+		// every package directory below x must be selected anyway
+		sub := strings.TrimPrefix(x, "./") + "/"
+		same := true
+		for f := range w.Files {
+			if strings.HasPrefix(f, sub) && strings.HasSuffix(f, ".go") {
+				if i := strings.LastIndex(f, "/"); !selected["./"+f[:i]] {
+					same = false
+				}
+			}
+		}
+		if !same {
+			continue
+		}
+		p := []string{x + "/..."}
+		for _, y := range w.Patterns {
+			if y != x && !strings.HasPrefix(y, x+"/") {
+				p = append(p, y)
+			}
+		}
+		out = append(out, p)
+	}
+	return out
+}
+
 func hasTag(w *World, t string) bool {
 	for _, x := range w.Tags {
 		if x == t {
@@ -488,6 +535,10 @@ func C09Cases(c *Ctx, w *World, rng *rand.Rand, reached []int, nRandom int) []*H
 	if c.refOK(w) {
 		for _, pv := range overlapVariants(rng, w) {
 			add(&GenSpec{Plan: planIdentity(), Patterns: pv}, 0)
+		}
+		for _, pv := range recursiveFirstVariants(w) {
+			add(&GenSpec{Plan: planIdentity(), Patterns: pv}, 0)
+			c.Stats.Add("c09.recursive_first_pattern_variants", 1)
 		}
 	}
 	// environment-only variants in identity order (isolates N3/N4 from N1)
